@@ -109,7 +109,7 @@ def flags_for(repo, config, shadow):
     return fl
 
 
-CANON = "canon-1"      # version of canonicalise(); part of the cache key
+CANON = "canon-4"      # version of canonicalise(); part of the cache key
 
 
 def content_key(repo, config, extra):
@@ -569,14 +569,47 @@ def canonicalise(f):
             r0 = rhs
             while isinstance(r0, dict) and r0.get("k") in ("ParenExpr", "ImplicitCastExpr") and r0.get("c"):
                 r0 = r0["c"][0]
-            if isinstance(r0, dict) and r0.get("k") == "BinaryOperator" and r0.get("op") in ("+", "-") and scalar(lhs) and \
-                    tyk(lhs) != "ptr" and pure(lhs):
+            if isinstance(r0, dict) and r0.get("k") == "BinaryOperator" and r0.get("op") in ("+", "-") and scalar(lhs) and pure(lhs):
                 a, b = r0["c"]
                 lt = expr_str(lhs)
                 if expr_str(a) == lt:
                     n["k"], n["op"], n["c"] = "CompoundAssignOperator", r0["op"] + "=", [lhs, b]
                 elif r0["op"] == "+" and expr_str(b) == lt:
                     n["k"], n["op"], n["c"] = "CompoundAssignOperator", "+=", [lhs, a]
+        if n.get("k") == "CompoundAssignOperator" and n.get("op") in ("+=", "-=") and len(n.get("c", [])) == 2 and \
+                cval(n["c"][1]) == 1 and scalar(n["c"][0]) and pure(n["c"][0]):
+            # x += 1 is ++x (same value, same lvalue)
+            n["k"], n["op"], n["c"] = "UnaryOperator", ("++" if n["op"] == "+=" else "--"), [n["c"][0]]
+            n.pop("postfix", None)
+            k = "UnaryOperator"
+        # overloaded forms on class types (iterators, strings): !(a != b) -> a == b ; s = s + e -> s += e
+        if k == "UnaryOperator" and n.get("op") == "!" and n.get("c"):
+            inner = n["c"][0]
+            while isinstance(inner, dict) and inner.get("k") in ("ParenExpr", "ImplicitCastExpr", "ExprWithCleanups", "MaterializeTemporaryExpr") and inner.get("c"):
+                inner = inner["c"][0]
+            def _is_std_iter(x):
+                t_ = x.get("t")
+                t_ = types[t_] if isinstance(t_, int) and types and 0 <= t_ < len(types) else (t_ if isinstance(t_, dict) else {})
+                while isinstance(t_, dict) and t_.get("k") == "ref" and t_.get("to"):
+                    t_ = t_["to"]
+                nm_ = (t_ or {}).get("name", "") or (t_ or {}).get("s", "")
+                return "iterator" in nm_ and ("std::" in nm_ or "__gnu_cxx" in nm_)
+            if isinstance(inner, dict) and inner.get("k") == "CXXOperatorCallExpr" and inner.get("op") in ("==", "!=") and len(inner.get("c", [])) == 3 \
+                    and (_is_std_iter(strip(inner["c"][1])) or _is_std_iter(strip(inner["c"][2]))):
+                flip = "!=" if inner["op"] == "==" else "=="
+                keep = dict((a, n[a]) for a in ("id", "l", "t") if a in n)
+                n.clear()
+                n.update(keep)
+                n.update({"k": "CXXOperatorCallExpr", "op": flip, "cname": "operator" + flip, "synth": True, "c": inner["c"]})
+        if k == "CXXOperatorCallExpr" and n.get("cname") == "operator=" and len(n.get("c", [])) == 3:
+            lhs, rhs = n["c"][1], n["c"][2]
+            r0 = rhs
+            while isinstance(r0, dict) and r0.get("k") in ("ParenExpr", "ImplicitCastExpr", "ExprWithCleanups", "MaterializeTemporaryExpr", "CXXBindTemporaryExpr") and r0.get("c"):
+                r0 = r0["c"][0]
+            if isinstance(r0, dict) and r0.get("k") == "CXXOperatorCallExpr" and r0.get("cname") == "operator+" and len(r0.get("c", [])) == 3 \
+                    and pure(lhs) and expr_str(r0["c"][1]) == expr_str(lhs) and "basic_string" in str((types[n["c"][1].get("t")] if isinstance(n["c"][1].get("t"), int) and types else {}).get("name", "")):
+                n["cname"], n["op"], n["synth"] = "operator+=", "+=", True
+                n["c"] = [n["c"][0], lhs, r0["c"][2]]
     if f.get("body"):
         rec(f["body"])
     for i in f.get("inits", []) or []:
